@@ -24,6 +24,7 @@ type AState struct {
 	PCells  map[string]*AVal      // struct-field cells keyed by access path
 	Arrays  map[int][]*AVal       // byte arrays
 	FV      map[*ssa.FreeVar]*AVal // values captured by closures (by value, or array objects)
+	Alias   map[string]*AVal       // alias symbols "@k": a value whose bits were spread over bytes (keeps its interval / linear form)
 	nextArr int
 	Events  []string // e.g. "wrap:…", "narrow:…"
 	Trace   []string // branch decisions
@@ -31,13 +32,16 @@ type AState struct {
 }
 
 func newState() *AState {
-	return &AState{Assume: map[string]bool{}, Cells: map[*ssa.Alloc]*AVal{}, PCells: map[string]*AVal{}, Arrays: map[int][]*AVal{}, FV: map[*ssa.FreeVar]*AVal{}, nextArr: 1}
+	return &AState{Assume: map[string]bool{}, Cells: map[*ssa.Alloc]*AVal{}, PCells: map[string]*AVal{}, Arrays: map[int][]*AVal{}, FV: map[*ssa.FreeVar]*AVal{}, Alias: map[string]*AVal{}, nextArr: 1}
 }
 
 func (s *AState) clone() *AState {
-	n := &AState{Assume: map[string]bool{}, Cells: map[*ssa.Alloc]*AVal{}, PCells: map[string]*AVal{}, Arrays: map[int][]*AVal{}, FV: map[*ssa.FreeVar]*AVal{}, nextArr: s.nextArr, Steps: s.Steps}
+	n := &AState{Assume: map[string]bool{}, Cells: map[*ssa.Alloc]*AVal{}, PCells: map[string]*AVal{}, Arrays: map[int][]*AVal{}, FV: map[*ssa.FreeVar]*AVal{}, Alias: map[string]*AVal{}, nextArr: s.nextArr, Steps: s.Steps}
 	for k, v := range s.FV {
 		n.FV[k] = v
+	}
+	for k, v := range s.Alias {
+		n.Alias[k] = v
 	}
 	for k, v := range s.Assume {
 		n.Assume[k] = v
@@ -148,6 +152,23 @@ func (it *Interp) Run(fn *ssa.Function, args []*AVal, init func(*AState)) []Outc
 	if init != nil {
 		init(st)
 	}
+	it.paths = 1
+	rs := it.call(fn, args, st, 0)
+	var out []Outcome
+	for _, r := range rs {
+		o := Outcome{Panic: r.panic, Abort: r.abort, Why: r.why, St: r.st}
+		for _, v := range r.ret {
+			o.Ret = append(o.Ret, v.substitute(r.st.Assume))
+		}
+		out = append(out, o)
+	}
+	return out
+}
+
+// RunWith is Run with arguments built against the initial state (to allocate abstract buffers).
+func (it *Interp) RunWith(fn *ssa.Function, mk func(*AState) []*AVal) []Outcome {
+	st := newState()
+	args := mk(st)
 	it.paths = 1
 	rs := it.call(fn, args, st, 0)
 	var out []Outcome
@@ -346,7 +367,16 @@ func (it *Interp) runFrom(fr *frame, b *ssa.BasicBlock, i int, pred *ssa.BasicBl
 			it.alloc(fr, st, x)
 		case *ssa.Store:
 			it.store(fr, st, x)
-		case *ssa.FieldAddr, *ssa.IndexAddr, *ssa.Field:
+		case *ssa.Field:
+			p := it.pathOf(fr, x)
+			if v, ok := st.PCells[p]; ok {
+				fr.env[x] = v
+			} else if v, ok := it.PathInputs[p]; ok {
+				fr.env[x] = v
+			} else {
+				fr.env[x] = it.topOf(x.Type())
+			}
+		case *ssa.FieldAddr, *ssa.IndexAddr:
 			// addresses are interpreted at the load/store
 		case *ssa.Slice:
 			fr.env[x] = it.slice(fr, st, x)
@@ -852,13 +882,39 @@ func (it *Interp) pathOf(fr *frame, v ssa.Value) string {
 		}
 		return x.Name()
 	case *ssa.Alloc:
+		// a by-value struct parameter spilled to a local: the path is the parameter's
+		if sts := StoresToCell(x); len(sts) == 1 {
+			if p, ok := sts[0].Val.(*ssa.Parameter); ok {
+				return it.pathOf(fr, p)
+			}
+		}
 		return fmt.Sprintf("alloc@%d:%s", fr.depth, x.Comment)
 	case *ssa.UnOp:
 		if x.Op == token.MUL {
 			return it.pathOf(fr, x.X)
 		}
+	case *ssa.Field:
+		return it.pathOf(fr, x.X) + "." + fieldName(x.X.Type(), x.Field)
 	}
 	return "?"
+}
+
+// RunIn abstractly executes fn starting from an existing state (e.g. the outcome of a previous run), so that
+// an encoder's output buffer can be handed to the decoder.
+func (it *Interp) RunIn(st *AState, fn *ssa.Function, mk func(*AState) []*AVal) []Outcome {
+	st = st.clone()
+	args := mk(st)
+	it.paths = 1
+	rs := it.call(fn, args, st, 0)
+	var out []Outcome
+	for _, r := range rs {
+		o := Outcome{Panic: r.panic, Abort: r.abort, Why: r.why, St: r.st}
+		for _, v := range r.ret {
+			o.Ret = append(o.Ret, v.substitute(r.st.Assume))
+		}
+		out = append(out, o)
+	}
+	return out
 }
 
 func (it *Interp) store(fr *frame, st *AState, x *ssa.Store) {
@@ -1096,7 +1152,13 @@ func combineBE(st *AState, bs []*AVal, w int) *AVal {
 	// recover a linear form when the bits are exactly sym[0..k) (identity provenance)
 	v = v.reduce()
 	if id, k := identitySym(v); id != "" {
-		_ = k
+		if al, ok := st.Alias[id]; ok {
+			if k <= al.W {
+				r, _ := convertV(al.substitute(st.Assume), w, false)
+				return r
+			}
+			return v
+		}
 		v.Lin = &Lin{Sym: id, A: bi(1), B: bi(0)}
 	}
 	return v
@@ -1122,7 +1184,42 @@ func identitySym(v *AVal) (string, int) {
 	return sym, k
 }
 
-func splitBE(v *AVal, nbytes int) []*AVal {
+func splitBE(st *AState, v *AVal, nbytes int) []*AVal {
+	// a value without bit provenance is given an alias symbol so that re-assembling the bytes recovers it exactly
+	unknown := false
+	for _, b := range v.Bits {
+		if b.K == BUnk {
+			unknown = true
+		}
+	}
+	if unknown && v.W <= nbytes*8 {
+		name := fmt.Sprintf("@%d", len(st.Alias))
+		st.Alias[name] = v
+		c := *v
+		c.Bits = make([]Bit, v.W)
+		for i := range c.Bits {
+			if v.Bits[i].K == BUnk {
+				c.Bits[i] = Bit{K: BSym, In: name, Idx: i}
+			} else {
+				c.Bits[i] = v.Bits[i]
+			}
+		}
+		// the alias stands for the whole value only if every bit carries its own index
+		full := true
+		for i := range c.Bits {
+			if !(c.Bits[i].K == BSym && c.Bits[i].In == name) && c.Bits[i].K != B0 {
+				full = false
+			}
+		}
+		if full {
+			for i := range c.Bits {
+				if c.Bits[i].K == B0 && v.Hi.Bit(i) == 1 {
+					// keep zeros that are known; nothing to do
+				}
+			}
+			v = &c
+		}
+	}
 	out := make([]*AVal, nbytes)
 	for i := 0; i < nbytes; i++ {
 		sh := (nbytes - 1 - i) * 8
@@ -1166,7 +1263,7 @@ func (it *Interp) stdModel(st *AState, c *ssa.Call, name string, args []*AVal) (
 				it.event(st, "oob", c, fmt.Sprintf("%s on a buffer of %d bytes", shortName(name), args[1].Len))
 				return nil, true
 			}
-			for i, b := range splitBE(args[2], n) {
+			for i, b := range splitBE(st, args[2], n) {
 				st.Arrays[args[1].Arr][args[1].Off+i] = b
 			}
 		}
